@@ -96,6 +96,48 @@ def build_harness(ctx):
     raise Machinery("harness build failed:\n" + err)
 
 
+def build_race(ctx):
+    """The harness with the Go race detector (the only observer of the Go memory model)."""
+    out = os.path.join(ctx.scratch, "jmv_race")
+    for tags in (["-tags", "verif"], []):
+        p = subprocess.run(["go", "build", "-race"] + tags + ["-o", out, "./jmv"], cwd=HARNESS, env=GOENV, capture_output=True, text=True)
+        if p.returncode == 0:
+            return out
+    raise Machinery("race-enabled harness build failed:\n" + p.stderr[-2000:])
+
+
+def run_race(ctx, files, iters=20, goroutines=8, timeout=1800):
+    """Free-running goroutines under the race detector; a race report or a wrong result is a candidate."""
+    binp = build_race(ctx)
+    out = os.path.join(ctx.scratch, "race.json")
+    env = dict(os.environ, GORACE="halt_on_error=0 exitcode=0")
+    cmd = [binp, "race", "-out", out, "-iters", str(iters), "-goroutines", str(goroutines)] + list(files)
+
+    def once():
+        try:
+            p = subprocess.run(cmd, capture_output=True, text=True, timeout=timeout, env=env)
+        except subprocess.TimeoutExpired:
+            raise Machinery("race run timeout")
+        if p.returncode != 0 or not os.path.exists(out):
+            raise Machinery("jmv race failed: " + p.stderr[-2000:])
+        return p.stderr.count("WARNING: DATA RACE"), json.load(open(out)), p.stderr
+    races, s, err = once()
+    ctx.evaluations += s["calls"]
+    ctx.traces += s["workloads"]
+    ctx.log("race monitor: %d calls on %d workloads, %d race report(s), %d wrong result(s)" % (s["calls"], s["workloads"], races, s["wrong_results"]))
+    if races or s["wrong_results"]:
+        races2, s2, err2 = once()      # confirmation in a fresh process
+        if races2 or s2["wrong_results"]:
+            m = re.search(r"WARNING: DATA RACE.*?(?=\n\n|\Z)", err2 or err, re.S)
+            ctx.candidates.append({"cat": "race", "confirm": "own", "src": "free-running goroutines on the schedule workloads",
+                                   "observed": ("%d race report(s), %d wrong result(s); first: %s %s" %
+                                                (races2, s2["wrong_results"], s2.get("first_wrong", ""), (m.group(0)[:1500] if m else "")))})
+        else:
+            ctx.notes.append("race report did not reproduce in a second run")
+            ctx.unreproduced = getattr(ctx, "unreproduced", 0) + 1
+    return races, s
+
+
 # --------------------------------------------------------------------------------------------
 # TLC
 
@@ -114,9 +156,15 @@ def cfg_text(constants, extra):
 
 
 def run_tlc(ctx, module, constants, extra, name=None, workers=1, timeout=900, xmx="3g", simulate=None,
-            coverage=False, depth=None, expect_violation=False):
-    """Run TLC on spec/<module>.tla with a generated cfg. Returns dict(out, states, distinct, ok, ...)."""
+            coverage=False, depth=None, expect_violation=False, defs=None):
+    """Run TLC on spec/<module>.tla with a generated cfg. Returns dict(out, states, distinct, ok, ...).
+    defs: extra TLA+ definitions (cfg files cannot hold tuple values): a wrapper module EXTENDS module is generated."""
     name = name or module
+    if defs:
+        wrapper = "W_" + re.sub(r"\W", "_", name)
+        with open(os.path.join(ctx.specdir, wrapper + ".tla"), "w") as f:
+            f.write("---- MODULE %s ----\nEXTENDS %s\n%s\n====\n" % (wrapper, module, defs))
+        module = wrapper
     cfg = os.path.join(ctx.specdir, name + ".cfg")
     with open(cfg, "w") as f:
         f.write(cfg_text(constants, extra))
